@@ -105,7 +105,7 @@ def cases(tier, rng):
         yield {"k": 2002, "args": [[nr], [nc], regs, [b, c], [0], [], rng.choice([[3, 4, 5], [4, 3, 5]])],
                "call": {"kill": [b, c]}, "group": "dissolve-nested"}
     for t in range(60 if tier == "quick" else 600):
-        yield {"k": 2000, "args": [[t]], "call": {"what": rng.choice(["geo", "geo", "dissolve"]), "seed": rng.randrange(10**9)}, "group": "float-and-dissolve"}
+        yield {"k": 2000, "args": [[t]], "call": {"what": rng.choice(["geo", "geo", "dissolve", "proj"]), "seed": rng.randrange(10**9)}, "group": "float-and-dissolve"}
 
 
 def _dijkstra(nr, nc, obs, msk, nodata, cost):
@@ -238,6 +238,40 @@ def _float(call):
             # sanity against the sphere: an east-west step costs about R cos(lat) dlon
             return [[0]]
         return [[1], [res[0] + ":geographic", res[1] + f" (north={north}, yres={yres}, shape {nr}x{nc})"]]
+    if call["what"] == "proj":
+        # projected grids whose cell sizes are no float32 numbers: the stored float32 distance and the float64 candidate
+        # must not be taken for an improvement of each other (every equal-cost path would be queued again; the number
+        # of queue entries then grows exponentially with the raster size).  One queue entry per improvement: a cell has
+        # 8 neighbours, each expanded once.
+        nr, nc = rng.randint(14, 26), rng.randint(14, 26)
+        n = nr * nc
+        xres, yres = rng.choice([(0.3, 0.7), (1 / 3, 1 / 3), (0.0083333, 0.0083333), (40.91, 4.62), (0.1, 0.3), (65.27, 23.53), (89.78, 84.44)])
+        tr = Affine(xres, 0.0, 0.0, 0.0, -yres, 0.0)
+        obs = [0] * n
+        obs[rng.choice([0, nc - 1, n - 1, rng.randrange(n)])] = 7
+        count = [0]
+        push0 = g.heapq.heappush
+
+        def counting(q, item):
+            count[0] += 1
+            if count[0] > 40 * n:
+                raise RuntimeError("queue entries")
+            push0(q, item)
+        # (the kernel looks heappush up in the heapq module at every call when it runs in the interpreter)
+        g.heapq.heappush = counting
+        try:
+            st, v = call_impl(g.spread2d, np.array(obs, dtype=np.int32).reshape(nr, nc), None, 0, None, False, tr, timeout=60)
+        finally:
+            g.heapq.heappush = push0
+        if st != "ok":
+            return [[1], ["spread:queue-blowup:projected" if "queue entries" in str(v) else "spread:" + st,
+                          f"spread2d on a {nr}x{nc} raster with cells {xres} x {yres}: {st} {str(v)[:80]} after {count[0]} queue entries ({n} cells)"]]
+        out, src, dst = v
+        if count[0] > 9 * n:
+            return [[1], ["spread:queue-blowup:projected", f"{count[0]} queue entries for {n} cells ({nr}x{nc}, cells {xres} x {yres})"]]
+        cost = lambda i, j: math.hypot((j // nc - i // nc) * yres, (j % nc - i % nc) * xres)
+        res = _check(nr, nc, obs, None, 0, cost, [int(x) for x in out.ravel()], [int(x) for x in src.ravel()], [float(x) for x in dst.ravel()], 1e-5)
+        return [[0]] if res is None else [[1], [res[0] + ":projected", res[1] + f" ({nr}x{nc}, cells {xres} x {yres})"]]
     # region_dissolve: random contiguous regions (nearest-seed labelling), dissolved by labels or by one location each
     nseed = rng.randint(2, 5)
     seeds = rng.sample(range(n), min(nseed, n))
